@@ -134,6 +134,16 @@ def expr(n) -> str:
         if n.step is not None:
             return _other(n)
         return "(.slice %s %s)" % (expr(n.lower) if n.lower else ".noneE", expr(n.upper) if n.upper else ".noneE")
+    if isinstance(n, ast.JoinedStr):
+        parts = []
+        for v in n.values:
+            if isinstance(v, ast.Constant) and isinstance(v.value, str):
+                parts.append("(.strE %s)" % _q(v.value))
+            elif isinstance(v, ast.FormattedValue) and v.conversion == -1 and v.format_spec is None:
+                parts.append("(.fmt %s)" % expr(v.value))
+            else:
+                return _other(n)
+        return "(.fstr %s)" % _lst(parts)
     if isinstance(n, ast.List):
         return "(.listE %s)" % _lst([expr(e) for e in n.elts])
     if isinstance(n, ast.Tuple):
